@@ -211,6 +211,9 @@ pub fn build() -> Vec<Box<dyn TypeOps>> {
         // wrappers
         ["wrap"] Box<u8>, ["wrap","big"] Box<Nat>, ["wrap"] std::rc::Rc<String>, ["wrap","primvec"] std::sync::Arc<Vec<u8>>, ["wrap"] std::cell::Cell<u32>, ["wrap","big"] std::cell::RefCell<Int>,
         ["wrap"] std::borrow::Cow<'static, String>, ["wrap"] std::cmp::Reverse<i16>, ["wrap","primvec"] Box<Vec<u64>>,
+        // vectors of wrappers around fixed-width numbers: same Candid type as the plain vector, different memory layout
+        ["vec","wrap"] Vec<Box<u32>>, ["vec","wrap"] Vec<std::rc::Rc<u64>>, ["vec","wrap"] Vec<std::sync::Arc<i16>>, ["vec","wrap"] Vec<Box<f64>>, ["vec","wrap"] Vec<std::cell::RefCell<u32>>,
+        ["vec","wrap"] Vec<std::cell::Cell<u16>>, ["vec","wrap"] Vec<std::cmp::Reverse<u8>>, ["vec","wrap"] Vec<Box<bool>>, ["vec","wrap","opt"] Option<Vec<Box<i64>>>, ["array","wrap"] [Box<u16>; 3],
         ["variant"] Result<u8, String>, ["variant","big"] Result<Nat, Int>, ["variant"] Result<(), ()>, ["variant","map"] Result<BTreeMap<String, Nat>, Vec<u8>>, ["variant"] candid::MotokoResult<u8, String>, ["variant","big"] candid::MotokoResult<Vec<Nat>, Option<Int>>,
         // tuples
         ["tuple"] (u8,), ["tuple"] (u8, String), ["tuple","big"] (Nat, Int, String), ["tuple"] (u8, u16, u32, u64), ["tuple","big"] (bool, String, Nat, Vec<u8>, Option<Int>),
